@@ -185,9 +185,25 @@ def run(pm, ctx):
     # ------------------------------------------------------------------ c lock-step histories
     hist_names = ["alphas", "n_features", "geminis", "group_lasso_penalties"]
     apps = {}
+    def _push(name, value, stmt):
+        c = ast.Call(func=ast.Attribute(value=ast.Name(id=name, ctx=ast.Load()), attr="append", ctx=ast.Load()), args=[value], keywords=[])
+        ast.copy_location(c, stmt)
+        ast.fix_missing_locations(c)
+        c._parent = stmt if isinstance(stmt, ast.stmt) else getattr(stmt, "_parent", None)
+        return c
     for n in ast.walk(f):
         if isinstance(n, ast.Call) and isinstance(n.func, ast.Attribute) and n.func.attr == "append" and isinstance(n.func.value, ast.Name) and n.func.value.id in hist_names:
             apps.setdefault(n.func.value.id, []).append(n)
+        # other spellings of one push: L += [x] / L.extend([x]) / L = L + [x]
+        elif isinstance(n, ast.AugAssign) and isinstance(n.op, ast.Add) and isinstance(n.target, ast.Name) and n.target.id in hist_names \
+                and isinstance(n.value, (ast.List, ast.Tuple)) and len(n.value.elts) == 1:
+            apps.setdefault(n.target.id, []).append(_push(n.target.id, n.value.elts[0], n))
+        elif isinstance(n, ast.Call) and isinstance(n.func, ast.Attribute) and n.func.attr == "extend" and isinstance(n.func.value, ast.Name) and n.func.value.id in hist_names \
+                and n.args and isinstance(n.args[0], (ast.List, ast.Tuple)) and len(n.args[0].elts) == 1:
+            apps.setdefault(n.func.value.id, []).append(_push(n.func.value.id, n.args[0].elts[0], getattr(n, "_parent", n)))
+        elif isinstance(n, ast.Assign) and isinstance(n.targets[0], ast.Name) and n.targets[0].id in hist_names and isinstance(n.value, ast.BinOp) and isinstance(n.value.op, ast.Add) \
+                and isinstance(n.value.left, ast.Name) and n.value.left.id == n.targets[0].id and isinstance(n.value.right, (ast.List, ast.Tuple)) and len(n.value.right.elts) == 1:
+            apps.setdefault(n.targets[0].id, []).append(_push(n.targets[0].id, n.value.right.elts[0], n))
     site = "_path: histories"
     probs = []
     if not apps:
